@@ -50,6 +50,27 @@ pub struct Hdrs {
     #[serde(rename = "x-tra")]
     pub x_tra: String,
 }
+/// header / parameter types that reach another named type only transitively
+#[derive(Serialize, Deserialize, JsonSchema, Clone, Debug)]
+pub enum CacheState {
+    Hit,
+    Miss,
+}
+#[derive(Serialize, Deserialize, JsonSchema, Clone, Debug)]
+pub struct CacheStatus(pub CacheState);
+#[derive(Serialize, Deserialize, JsonSchema, Clone, Debug)]
+pub struct Hdrs2 {
+    #[serde(rename = "x-cache")]
+    pub cache: CacheStatus,
+    #[serde(rename = "x-opt")]
+    pub opt: Option<String>,
+}
+#[derive(Serialize, Deserialize, JsonSchema, Clone, Debug)]
+pub struct WrappedKind(pub Kind);
+#[derive(Serialize, Deserialize, JsonSchema, Clone, Debug)]
+pub struct QueryW {
+    pub wk: Option<WrappedKind>,
+}
 #[derive(Debug, Serialize, JsonSchema)]
 pub struct MyErr {
     pub msg: String,
@@ -127,6 +148,10 @@ flavored!(f_query, f_query0, (q: Query<QueryK>), HttpResponseOk<Vec<Part>>, Http
     Ok(HttpResponseOk(vec![])));
 flavored!(f_hdrs, f_hdrs0, (), HttpResponseHeaders<HttpResponseOk<Part>, Hdrs>, HttpError,
     Ok(HttpResponseHeaders::new(HttpResponseOk(Part { id: 1, kind: Kind::B }), Hdrs { x_tra: "v".into() })));
+flavored!(f_hdrs2, f_hdrs20, (), HttpResponseHeaders<HttpResponseOk<u32>, Hdrs2>, HttpError,
+    Ok(HttpResponseHeaders::new(HttpResponseOk(7), Hdrs2 { cache: CacheStatus(CacheState::Hit), opt: None })));
+flavored!(f_queryw, f_queryw0, (q: Query<QueryW>), HttpResponseOk<u8>, HttpError,
+    Ok(HttpResponseOk(1)));
 flavored!(f_err, f_err0, (), HttpResponseOk<Kind>, MyErr,
     Ok(HttpResponseOk(Kind::A)));
 flavored!(f_err2, f_err20, (b: TypedBody<Gadget>), HttpResponseOk<Widget>, other::MyErr,
@@ -165,6 +190,8 @@ fn make(d: &DocEp) -> Option<ApiEndpoint<C>> {
         3 => fl!(f_hdrs, f_hdrs0),
         4 => fl!(f_err, f_err0),
         5 => fl!(f_err2, f_err20),
+        6 => fl!(f_hdrs2, f_hdrs20),
+        7 => fl!(f_queryw, f_queryw0),
         _ => return make_endpoint(ep, &key).map(|e| decorate(e, d)),
     };
     Some(decorate(e, d))
@@ -262,7 +289,7 @@ pub fn gen_doc_table(rng: &mut Rng, u: &[MVer]) -> (Vec<DocEp>, bool) {
                     tags.push(t);
                 }
             }
-            DocEp { ep, flavor: rng.below(8) as u8, tags, deprecated: rng.chance(1, 5) }
+            DocEp { ep, flavor: rng.below(10) as u8, tags, deprecated: rng.chance(1, 5) }
         })
         .collect();
     (eps, rng.bool())
